@@ -365,7 +365,7 @@ func (db *SpecDB) parseBlock(body, pkgPath, file string, line0 int, extern bool)
 			}
 		case topLevel && word == "directive":
 			db.Directives[curPkg] = append(db.Directives[curPkg], rest)
-		case topLevel && (word == "func" || word == "extern" || word == "funclit"):
+		case topLevel && (word == "func" || word == "extern" || word == "funclit" || word == "role"):
 			fs := &FuncSpec{PkgPath: curPkg, Loops: map[string]*LoopSpec{}, Nullable: map[string]bool{}, Where: where, Trusted: extern, Extra: map[string][]string{}}
 			switch word {
 			case "func":
@@ -394,6 +394,27 @@ func (db *SpecDB) parseBlock(body, pkgPath, file string, line0 int, extern bool)
 					}
 					fs.Header = h
 				}
+			case "role":
+				// role <name>(params) results in <func header>: contract of a
+				// func-typed parameter/field called inside that function
+				rs, hs, ok := strings.Cut(rest, " in ")
+				if !ok {
+					db.errf(where, "role: expected '<name>(..) in <func>'")
+					continue
+				}
+				rh, err := parseHeader("func " + strings.TrimSpace(rs))
+				if err != nil {
+					db.errf(where, "role header: %v", err)
+					continue
+				}
+				h, err := parseHeader("func " + strings.TrimSpace(hs))
+				if err != nil {
+					db.errf(where, "role owner header: %v", err)
+					continue
+				}
+				fs.Header = rh
+				fs.Key = headerKey(curPkg, h) + "$role:" + rh.Name.Name
+				fs.Trusted = true
 			case "funclit":
 				// funclit <N> in <func header>   (N-th func literal in source order)
 				ns, hs, ok := strings.Cut(rest, " in ")
